@@ -70,4 +70,173 @@ theorem sendAll_frame {cfg : Conf} {snapOf : Nat → List (Option Bool)} {s s' :
     subst h1; subst h2
     exact sendAllLoop_frame _ _ _ hrec
 
+/-! ## the send loop only produces `append_entries` messages -/
+
+def Msg.isAppendKind : Msg → Bool
+  | .append _ _ _ _ => true
+  | .chunk _ _ _ _ _ _ _ => true
+  | .snap _ _ _ => true
+  | _ => false
+
+theorem render_kind (B t c : Nat) (b : Batch) : ∀ m ∈ render B t c b, m.isAppendKind = true := by
+  intro m hm
+  cases b with
+  | regular p es => simp [render] at hm; subst hm; rfl
+  | snapshot a => simp [render] at hm; subst hm; rfl
+  | chunked p e =>
+    simp [render] at hm
+    obtain ⟨l, a, b, _, rfl⟩ := hm
+    rfl
+
+theorem sendBurst_sub (d : Option Nat) : ∀ (ms : List Msg) (n : Nat), ∀ m ∈ (sendBurst d n ms).1, m ∈ ms := by
+  intro ms
+  induction ms with
+  | nil => intro n m hm; simp [sendBurst] at hm
+  | cons a t ih =>
+    intro n m hm
+    unfold sendBurst at hm
+    split at hm
+    · simp only [List.mem_cons] at hm ⊢
+      rcases hm with h | h
+      · exact Or.inl h
+      · exact Or.inr (ih _ m h)
+    · simp at hm; simp [hm]
+
+theorem sendLoop_kind_aux (c : SendCfg) (log : List Entry) (fuel : Nat) (b : Batch) (all : List Msg)
+    (nxt : Option Nat) (ser' : Bool) (snap' : List (Option Bool)) (budget : Option Nat) (sent' : Nat) (r : SendRes)
+    (ih : ∀ (next : Nat) (ss ser : Bool) (snap : List (Option Bool)) (budget : Option Nat) (sent : Nat) (r : SendRes),
+      sendLoop c log fuel next ss ser snap budget sent = .ok r → ∀ m ∈ r.msgs, m.isAppendKind = true)
+    (hall : ∀ m ∈ all, m.isAppendKind = true)
+    (h : (match nxt with
+      | none => (Except.error Err.indexError : Except Err SendRes)
+      | some next'' =>
+        if budgetDone budget then .ok ⟨[b], all, next'', budgetNext budget, sent', snap', false⟩
+        else
+          match sendLoop c log fuel next'' false ser' snap' (budgetNext budget) sent' with
+          | .error e => .error e
+          | .ok r => .ok { r with batches := b :: r.batches, msgs := all ++ r.msgs }) = .ok r) :
+    ∀ m ∈ r.msgs, m.isAppendKind = true := by
+  cases nxt with
+  | none => simp at h
+  | some next'' =>
+    simp only [] at h
+    by_cases hb : budgetDone budget = true
+    · simp only [hb, if_true] at h; cases h; exact hall
+    · simp only [hb] at h
+      cases hr' : sendLoop c log fuel next'' false ser' snap' (budgetNext budget) sent' with
+      | error e => simp [hr'] at h
+      | ok r' =>
+        simp [hr'] at h
+        subst h
+        intro m hm
+        simp only [List.mem_append] at hm
+        rcases hm with hm | hm
+        · exact hall m hm
+        · exact ih _ _ _ _ _ _ _ hr' m hm
+
+theorem sendLoop_kind (c : SendCfg) (log : List Entry) :
+    ∀ (fuel next : Nat) (ss ser : Bool) (snap : List (Option Bool)) (budget : Option Nat) (sent : Nat) (r : SendRes),
+      sendLoop c log fuel next ss ser snap budget sent = .ok r → ∀ m ∈ r.msgs, m.isAppendKind = true := by
+  intro fuel
+  induction fuel with
+  | zero => intro next ss ser snap budget sent r h; simp [sendLoop] at h; subst h; simp
+  | succ fuel ih =>
+    intro next ss ser snap budget sent r h
+    unfold sendLoop at h
+    cases hl : lastIdx? log with
+    | none => simp [hl] at h
+    | some last =>
+      simp only [hl] at h
+      by_cases hc : (decide (next ≤ last) || ss || ser) = true
+      · simp only [hc, if_true] at h
+        cases hit : iterBatch c.B log next snap.head?.join with
+        | error e => simp [hit] at h
+        | ok p =>
+          obtain ⟨b, next'⟩ := p
+          simp only [hit] at h
+          have hall := render_kind c.B c.term c.commit b
+          cases b with
+          | chunked prev e =>
+            simp only [] at h
+            by_cases hb : budgetDone budget = true
+            · simp only [hb, if_true] at h
+              cases h
+              intro m hm
+              exact hall m (sendBurst_sub _ _ _ m hm)
+            · simp only [hb] at h
+              cases hr' : sendLoop c log fuel next' false false snap (budgetNext budget)
+                  (sendBurst c.dropAfter sent (render c.B c.term c.commit (Batch.chunked prev e))).2 with
+              | error e => simp [hr'] at h
+              | ok r' =>
+                simp [hr'] at h
+                subst h
+                intro m hm
+                simp only [List.mem_append] at hm
+                rcases hm with hm | hm
+                · exact hall m (sendBurst_sub _ _ _ m hm)
+                · exact ih _ _ _ _ _ _ _ hr' m hm
+          | regular prev es =>
+            simp only [] at h
+            by_cases hcn : (!stillConnected c.dropAfter (sent + 1)) = true
+            · simp only [hcn, if_true] at h; cases h; exact hall
+            · simp only [hcn] at h
+              by_cases hb : budgetDone budget = true
+              · simp only [hb, if_true] at h; cases h; exact hall
+              · simp only [hb] at h
+                cases hr' : sendLoop c log fuel next' false false snap (budgetNext budget) (sent + 1) with
+                | error e => simp [hr'] at h
+                | ok r' =>
+                  simp [hr'] at h
+                  subst h
+                  intro m hm
+                  simp only [List.mem_append] at hm
+                  rcases hm with hm | hm
+                  · exact hall m hm
+                  · exact ih _ _ _ _ _ _ _ hr' m hm
+          | snapshot a =>
+            simp only [] at h
+            by_cases hcn : (!stillConnected c.dropAfter (sent + 1)) = true
+            · simp only [hcn, if_true] at h; cases h; exact hall
+            · simp only [hcn] at h
+              exact sendLoop_kind_aux c log fuel _ _ _ _ _ _ _ r ih hall h
+      · simp only [hc] at h
+        cases h
+        intro m hm
+        cases hm
+
+def Out.isAppendSend : Out → Bool
+  | .send _ m => m.isAppendKind
+  | _ => false
+
+theorem sendAllLoop_kind (B : Nat) (snapOf : Nat → List (Option Bool)) (ds : List Nat) :
+    ∀ {s s' : Node} {budget b' : Option Nat} {o : List Out},
+      sendAllLoop B snapOf ds s budget = .ok (s', o, b') → ∀ x ∈ o, x.isAppendSend = true := by
+  induction ds with
+  | nil => intro s s' budget b' o h; simp [sendAllLoop] at h; intro x hx; rw [h.2.1] at hx; cases hx
+  | cons d ds ih =>
+    intro s s' budget b' o h
+    unfold sendAllLoop at h
+    split at h
+    · exact ih h
+    · split at h
+      · simp at h
+      · split at h
+        · simp at h
+        · rename_i r hr
+          simp only [] at h
+          split at h
+          · simp at h
+          · rename_i s2 o2 b2 hrec
+            simp at h
+            obtain ⟨_, h2, _⟩ := h
+            subst h2
+            intro x hx
+            rcases List.mem_append.mp hx with hx | hx
+            · simp at hx
+              obtain ⟨m, hm, hxm⟩ := hx
+              subst hxm
+              unfold sendOne at hr
+              exact sendLoop_kind _ _ _ _ _ _ _ _ _ _ hr m hm
+            · exact ih hrec x hx
+
 end PSO.NodeSend
